@@ -127,6 +127,49 @@ func extractImport() {
 	l.def("cancelCheckBeforeProcessBatch", "Bool", lbool(cancelBefore), "the write loop of appendNewHeaders looks at the context exactly once per iteration, before processBatch")
 	shape["cancelCheckBeforeProcessBatch"] = cancelBefore
 
+	// the write loop's end-of-data test: io.EOF is what ReadBatch returns for an exhausted region, and only that
+	// very value may end the loop - a read error that merely WRAPS io.EOF (a short read of the import file) must
+	// be reported.  So: in appendNewHeaders and processBatch io.EOF is compared by identity (== or a switch case)
+	// and never handed to errors.Is / errors.As.
+	eofExact := true
+	for _, fn := range []string{"appendNewHeaders", "processBatch"} {
+		fd := funcDecl(f, "headersImport", fn)
+		if fd == nil {
+			fail("headersImport.%s", fn)
+			eofExact = false
+			continue
+		}
+		ident, lax := 0, 0
+		ast.Inspect(fd.Body, func(n ast.Node) bool {
+			switch x := n.(type) {
+			case *ast.BinaryExpr:
+				if x.Op == token.EQL && (src(x.X) == "io.EOF" || src(x.Y) == "io.EOF") {
+					ident++
+				}
+			case *ast.CaseClause:
+				for _, e := range x.List {
+					if src(e) == "io.EOF" {
+						ident++
+					}
+				}
+			case *ast.CallExpr:
+				if name := src(x.Fun); name == "errors.Is" || name == "errors.As" {
+					for _, a := range x.Args {
+						if src(a) == "io.EOF" {
+							lax++
+						}
+					}
+				}
+			}
+			return true
+		})
+		if ident == 0 || lax > 0 {
+			eofExact = false
+		}
+	}
+	l.def("writeLoopEofBySentinelIdentity", "Bool", lbool(eofExact), "appendNewHeaders / processBatch end the write loop only on the very value io.EOF (compared by ==), never on an error that wraps it (errors.Is)")
+	shape["writeLoopEofBySentinelIdentity"] = eofExact
+
 	// the validators: what they do when they see a cancelled context
 	nilOnCancel := true
 	for _, vf := range [][2]string{{"chainimport/block_headers_validator.go", "blockHeadersImportSourceValidator"},
